@@ -80,4 +80,28 @@ theorem C15_translate (m : Mode) (v : VW) (buf : List α) (h : v.Inv buf.length)
       .ok (gather buf (v.mapCells (translateG v.numCols v.numRows mid.1 mid.2))) := by
   exact translate_spec m buf h ha getRowMut hget mid hm
 
+/-- non-vacuity: flips of a 2x2 window (stride 3, offset 1) of an 8-cell buffer as concrete computations, and the hypotheses
+    of `C15_flip_rows` hold for it -/
+example : (⟨2, 2, ⟨⟨1, 5⟩, 2, 1⟩⟩ : Acc).flipRows .debug [0, 1, 2, 3, 4, 5, 6, 7] = .ok [0, 4, 5, 3, 1, 2, 6, 7] ∧
+    (⟨2, 2, ⟨⟨1, 5⟩, 2, 1⟩⟩ : Acc).flipCols [0, 1, 2, 3, 4, 5, 6, 7] = .ok [0, 2, 1, 3, 5, 4, 6, 7] := ⟨by rfl, by rfl⟩
+example : (⟨2, 2, ⟨⟨1, 5⟩, 2, 1⟩⟩ : Acc).flipRows .release [0, 1, 2, 3, 4, 5, 6, 7] =
+    .ok (gather [0, 1, 2, 3, 4, 5, 6, 7] ((⟨⟨1, 5⟩, 2, 2, 3⟩ : VW).mapCells (flipRowsG 2))) :=
+  C15_flip_rows .release ⟨⟨1, 5⟩, 2, 2, 3⟩ [0, 1, 2, 3, 4, 5, 6, 7]
+    ⟨by decide, by decide, by decide, by decide, by decide, by decide⟩ _
+    ⟨rfl, rfl, ⟨by decide, by decide, by decide, by decide, by decide⟩, rfl⟩
+/-- non-vacuity: `translate_with_wrap((1,1))` of a concrete 3x2 array: new `(c,r)` = old `((c+1) mod 3, (r+1) mod 2)`
+    (concrete computation); a `mid` beyond the size panics (`C15_translate_reject`); the hypotheses of `C15_translate`
+    (row accessor included) hold -/
+example : (TD.acc (⟨[1, 2, 3, 4, 5, 6], 2, 3⟩ : TD Nat)).translateWithWrap .debug (fun r => .ok ⟨r * 3, 3⟩)
+      [1, 2, 3, 4, 5, 6] (1, 1) = .ok [5, 6, 4, 2, 3, 1] ∧
+    (TD.acc (⟨[1, 2, 3, 4, 5, 6], 2, 3⟩ : TD Nat)).translateWithWrap .debug (fun r => .ok ⟨r * 3, 3⟩)
+      [1, 2, 3, 4, 5, 6] (4, 1) = .error .panic :=
+  ⟨by rfl, C15_translate_reject .debug _ _ _ (4, 1) (by decide)⟩
+example : (TD.acc (⟨[1, 2, 3, 4, 5, 6], 2, 3⟩ : TD Nat)).translateWithWrap .release (fun r => .ok ⟨r * 3, 3⟩)
+    [1, 2, 3, 4, 5, 6] (1, 1) = .ok (gather [1, 2, 3, 4, 5, 6]
+      ((TD.asView (⟨[1, 2, 3, 4, 5, 6], 2, 3⟩ : TD Nat)).mapCells (translateG 3 2 1 1))) :=
+  C15_translate .release (TD.asView (⟨[1, 2, 3, 4, 5, 6], 2, 3⟩ : TD Nat)) [1, 2, 3, 4, 5, 6]
+    (TD.asView_inv _ ⟨rfl, by decide, by decide⟩).1 _ (C13_acc_owned _ ⟨rfl, by decide, by decide⟩)
+    (fun r => .ok ⟨r * 3, 3⟩) (fun r _ => by simp [VW.rowWin, VW.pos, TD.asView, TD.win]) (1, 1) (by decide)
+
 end Toodee
